@@ -81,6 +81,9 @@ def corpus_helpers(tier):
     out.append(([part("first", None, b"plain ascii", "text/plain; charset=ISO-8859-1"), part("second", None, "Zürich 5 €".encode()), part("u", "ü.txt", "é".encode(), "text/plain; charset=utf-16"), part("third", None, "中".encode())], b, "utf-8", None, None))
     # parts long enough to be delivered in several hundred pieces (more Data events than the default part limit)
     out.append(([part("big", "big.bin", bytes(range(256)) * 2), part("txt", None, ("line of text " * 30).encode())], b, "utf-8", None, None))
+    # a boundary made of the RFC 2046 characters that force the Content-Type parameter to be a quoted string (comma, equals sign,
+    # parentheses, blank inside): the request accessors must hand the decoder the boundary the client wrote
+    out.append(([part("f", None, "é, x".encode()), part("u", "a,b.txt", b"1,2\r\n")], b"=_Part,17_+(x) y", "utf-8", None, None))
     if tier == "thorough":
         out.append(([part("f", None, ("中" * 5).encode()), part("g", None, ("é\r\n" * 3).encode())], b"'()+_,-./:=?", "utf-8", None, None))
     return out
